@@ -338,6 +338,53 @@ def _where(args):
     return [f"{f.filename.rsplit('/', 1)[-1]}:{f.name}" for f in traceback.extract_tb(args.exc_traceback)][-4:]
 
 
+def stop_guarded(gw, budget=12.0):
+    """gw.stop() of a threaded gateway on a helper thread. None when it returned; otherwise, after `budget` seconds, the
+    library frames of every thread are sampled three times a second apart: the threads whose stack did not move are
+    returned as {thread name: ((file, function, line), ...)} - blocked for good (a lock that is never released), not slow."""
+    import sys
+    import traceback
+
+    done = threading.Event()
+    err = []
+
+    def body():
+        try:
+            gw.stop()
+        except BaseException as exc:      # re-raised in the caller
+            err.append(exc)
+        finally:
+            done.set()
+
+    th = threading.Thread(target=body, name="vf-stop", daemon=True)
+    th.start()
+    if done.wait(budget):
+        if err:
+            raise err[0]
+        return None
+    samples = []
+    for _ in range(3):
+        frames = sys._current_frames()
+        snap = {}
+        for t in threading.enumerate():
+            f = frames.get(t.ident)
+            st = traceback.extract_stack(f) if f is not None else []
+            lib = tuple((os.path.basename(fr.filename), fr.name, fr.lineno) for fr in st if "/mysensors/" in fr.filename.replace(os.sep, "/"))
+            if lib:
+                fns = [x[1] for x in lib]
+                role = ("stop()" if t.name == "vf-stop" else "poll thread" if "_poll_queue" in fns else
+                        "connect thread" if "sync_connect" in fns or "_connect" in fns else t.name)
+                snap[role] = lib
+        samples.append(snap)
+        time.sleep(1.0)
+    if done.is_set():
+        if err:
+            raise err[0]
+        return None
+    stable = {n: st for n, st in samples[0].items() if all(x.get(n) == st for x in samples[1:])}
+    return stable or {"stop()": (("?", "?", 0),)}
+
+
 def run_real(kind, flavour, script, rt=0.4, answer=True, hold=0.0, host="127.0.0.1"):
     """One lifetime of a real gateway against a real (loopback / pty) device. Returns (events, meta)."""
     import serial
@@ -473,8 +520,9 @@ def run_real(kind, flavour, script, rt=0.4, answer=True, hold=0.0, host="127.0.0
                         await asyncio.sleep(0)
                 on_loop(_settle)
             else:
-                gw.stop()
-            log.add("STOPPED")
+                meta["stuck"] = stop_guarded(gw)
+            if not meta.get("stuck"):
+                log.add("STOPPED")
             time.sleep(3.2 * rt + 0.5)
             log.add("END")
             if flavour == "asyncio" and start_fut.done() and not start_fut.cancelled() and start_fut.exception() is not None:
@@ -692,8 +740,9 @@ def run_stress(kind, seed, churn_s=2.0, producers=3, rt=0.05, pace=(0.003, 0.01,
         out["final_delivered"] = log.wait(got_final, 8.0, "final batch delivered")
         out["settled"] = settled
         log.add("STOPPING")
-        gw.stop()
-        log.add("STOPPED")
+        out["stuck"] = stop_guarded(gw)
+        if out["stuck"] is None:
+            log.add("STOPPED")
         time.sleep(0.3)
         out["queued"] = dict(counts)
         out["final"] = final
@@ -749,6 +798,11 @@ def check_stress(out):
                   f"after the faults stopped and the link was re-established, {len(missing)} of {len(out.get('final', []))} queued commands never reached the device"))
     if not out.get("settled"):
         V.append((f"real-stress:link-not-re-established:{kind}", "the link was not re-established after the faults stopped"))
+    if out.get("stuck"):
+        inner = sorted({st[-1][1] for st in out["stuck"].values()})
+        V.append((f"real-stress:threads-blocked-for-good:{'+'.join(inner)}:{kind}",
+                  f"stop() had not returned after 12 s and these threads did not move for three more seconds: "
+                  + "; ".join(f"{n}: " + " <- ".join(f"{fi}:{ln} {fn}" for fi, fn, ln in reversed(st)) for n, st in sorted(out["stuck"].items()))))
     out["stats"] = {"received": sum(seen.values()), "distinct": len(seen), "queued": sum(out.get("queued", {}).values()), "drops": out.get("drops", 0),
                     "connections": len(per_conn), "other_thread_errors": sum(1 for e in out["errors"] if not str(e[0]).startswith("_poll_queue"))}
     return V
